@@ -23,6 +23,10 @@ var KindMenu = []Tok{
 // and actions violates the documented syntax at the token level).
 var JunkMenu = []string{"/", "<", ",", "?", "@", "#", "7", "\\", "=", "+", "*", "~", "$", "%", "^", "&", "<=", "\x01"}
 
+// BadCharLits / BadStringLits: texts that look like literals and are not (spec/gocc2.ebnf, "Lexical items").
+var BadCharLits = []string{`'\x41B'`, `'\nxyz'`, `'ab'`, `'\q'`, `'\18'`, `'\400'`, `'\ud800'`, `'\U00110000'`, `''`, `'\x4'`, `'\u12'`}
+var BadStringLits = []string{`"\q"`, `"\400"`, `"\ud800"`, `"a\U00110000"`, `"\x4"`, `"\u12"`}
+
 func cloneToks(t []Tok) []Tok { return append([]Tok(nil), t...) }
 
 // Mutants enumerates every single-token edit, every reference renaming and every definition duplication.
@@ -57,6 +61,26 @@ func Mutants(toks []Tok) []Mutant {
 			out = append(out, Mutant{"junk", fmt.Sprintf("insert stray %q at gap %d", j, i), m, false})
 		}
 	}
+	// malformed lexemes: a character literal / string literal replaced by text that is not one by the lexical rules of
+	// spec/gocc2.ebnf (characters after a complete character, unknown or out-of-range escapes, too few digits, an empty
+	// or unterminated literal) - the first two literals of each kind
+	nc, ns := 0, 0
+	for i, t := range toks {
+		var menu []string
+		switch {
+		case t.Kind == "char_lit" && nc < 2:
+			nc++
+			menu = BadCharLits
+		case t.Kind == "string_lit" && ns < 2:
+			ns++
+			menu = BadStringLits
+		}
+		for _, l := range menu {
+			m := cloneToks(toks)
+			m[i] = Tok{"junk", l}
+			out = append(out, Mutant{"badlex", fmt.Sprintf("replace #%d %s by the malformed lexeme %s", i, t.Text, l), m, false})
+		}
+	}
 	// reference renaming: each use (not a production head) of a production or regular-definition name
 	for i, t := range toks {
 		if (t.Kind == "prodId" || t.Kind == "regDefId") && !(i+1 < len(toks) && toks[i+1].Kind == ":") {
@@ -67,6 +91,12 @@ func Mutants(toks []Tok) []Mutant {
 				m[i].Text = "_undefined9"
 			}
 			out = append(out, Mutant{"rename", fmt.Sprintf("rename use #%d of %s", i, t.Text), m, false})
+			if t.Kind == "prodId" {
+				// a production name need not begin with an ASCII letter
+				m2 := cloneToks(toks)
+				m2[i].Text = "\u00c4rger9"
+				out = append(out, Mutant{"rename", fmt.Sprintf("rename use #%d of %s to a name with a non-ASCII upper-case initial", i, t.Text), m2, false})
+			}
 		}
 	}
 	// ... and to the text of each string literal of the file that is spelled like such a name (a literal is a token,
